@@ -57,6 +57,26 @@ func famC05Idle() []explore.Event {
 	}
 }
 
+// arrive-then-remove: a message the observer has not been told about yet is removed again (by the connector or by
+// another session) before the observer's next command.
+func famC05Arrive() []explore.Event {
+	return []explore.Event{
+		ev("deliver", 0),
+		conn("create:INBOX"),
+		conn("remove:INBOX:last"),
+		conn("delete:INBOX:last"),
+		conn("readd:INBOX"),
+		ev("append", 1, "INBOX"),
+		ev("cmd", 1, `STORE * +FLAGS (\Deleted)`),
+		ev("cmd", 1, `EXPUNGE`),
+		ev("deliver", 1),
+		ev("cmd", 0, `FETCH 1 (FLAGS)`),
+		ev("cmd", 0, `STORE 1 +FLAGS (\Flagged)`),
+		ev("cmd", 0, `SEARCH ALL`),
+		ev("cmd", 0, `NOOP`),
+	}
+}
+
 func c05Families(d int) []explore.Family {
 	o := []string{"c05", "c01", "c02"}
 	sel3 := []string{"INBOX", "INBOX", "m2"}
@@ -64,6 +84,7 @@ func c05Families(d int) []explore.Family {
 		mboxFam("fetch-store-search", d, o, 2, nil, famC05Kinds1()),
 		mboxFam("permitting-kinds", d, o, 3, sel3, famC05Kinds2()),
 		mboxFam("idle-close-reselect", d, o, 2, nil, famC05Idle()),
+		mboxFam("arrive-then-remove", d, o, 2, nil, famC05Arrive()),
 	}
 }
 
